@@ -64,7 +64,13 @@ func cfgTokens(c *Case) []string {
 		toks = append(toks, "cc=none")
 	}
 	if c.Cmds {
-		toks = append(toks, "cmds="+hx("probe")+":p,"+hx("failcmd")+":f,"+hx("negok")+":n")
+		cmds := hx("probe") + ":p," + hx("failcmd") + ":f," + hx("negok") + ":n"
+		if c.Shadow {
+			for _, n := range shadowNames {
+				cmds += "," + hx(n) + ":p"
+			}
+		}
+		toks = append(toks, "cmds="+cmds)
 	} else {
 		toks = append(toks, "cmds=-")
 	}
